@@ -278,7 +278,10 @@ func c15Matrix(rep *Report, m *model.Client, cfg engine.Config, prefix []engine.
 	}
 	// ---- Page matrix
 	for _, ts := range []string{"rw", "ro", "done-rw"} {
-		for _, pst := range []string{"new", "new-dirty", "clean", "dirty", "flushed", "freed"} {
+		for _, pst0 := range []string{"new", "new-dirty", "clean", "dirty", "flushed", "freed", "clean+loaded", "dirty+loaded", "flushed+loaded", "freed+loaded"} {
+			// "+loaded": the page object already has its write buffer (an earlier Load) when it reaches the state
+			pst := strings.TrimSuffix(pst0, "+loaded")
+			preload := pst != pst0
 			if ts == "ro" && pst != "clean" {
 				continue
 			}
@@ -302,11 +305,18 @@ func c15Matrix(rep *Report, m *model.Client, cfg engine.Config, prefix []engine.
 					tx.Close()
 					continue
 				}
+				if preload && ts != "ro" {
+					p.Load()
+				}
 				switch pst {
 				case "new-dirty", "dirty":
 					p.SetBytes(make([]byte, ps))
 				case "flushed":
-					p.SetBytes(make([]byte, ps))
+					if preload {
+						p.MarkDirty()
+					} else {
+						p.SetBytes(make([]byte, ps))
+					}
 					p.Flush()
 				case "freed":
 					p.Free()
@@ -366,9 +376,9 @@ func c15Queue(rep *Report, m *model.Client, r *rand.Rand) {
 		return
 	}
 	w, _ := q.Writer()
-	n := r.Intn(4)
+	n := r.Intn(6)
 	for i := 0; i < n; i++ {
-		w.Write(make([]byte, 10+r.Intn(2000)))
+		w.Write(make([]byte, 10+r.Intn(300)))
 		w.Next()
 	}
 	w.Flush()
@@ -399,6 +409,17 @@ func c15Queue(rep *Report, m *model.Client, r *rand.Rand) {
 	pending, _ := q.Pending()
 	check(fmt.Sprintf("api_ack 0 %s 1 0", b01(pending == 0)), guarded(func() error { return q.ACK(uint(pending + 1 + r.Intn(5))) }), fmt.Sprintf("ack/too-many/empty=%v", pending == 0))
 	check("api_ack 0 0 0 1", guarded(func() error { return q.ACK(0) }), "ack/zero")
+	// after a partial ACK (read pointer ahead of the head of its page) every count above the pending events is
+	// still refused, in particular pending+1 .. pending+(events already ACKed in the head page)
+	if pending >= 2 {
+		acked := 1 + r.Intn(pending-1)
+		if err := q.ACK(uint(acked)); err == nil {
+			pending -= acked
+			for extra := 1; extra <= acked+1; extra++ {
+				check("api_ack 0 0 1 0", guarded(func() error { return q.ACK(uint(pending + extra)) }), fmt.Sprintf("ack/too-many-after-partial-ack/+%d", minInt(extra, 3)))
+			}
+		}
+	}
 	pending2, _ := q.Pending()
 	if pending2 != pending {
 		rep.violate(Violation{Kind: "oracle", Sig: "misuse-changes-state/queue/ack", Detail: fmt.Sprintf("a rejected ACK changed Pending from %d to %d", pending, pending2), Replay: c15Replay{Object: "queue", State: "ack"}})
